@@ -7,6 +7,7 @@ package main
 import (
 	"encoding/json"
 	"fmt"
+	"os"
 	"reflect"
 	"strings"
 	"unsafe"
@@ -15,6 +16,7 @@ import (
 
 	"github.com/zmap/zcrypto/tls"
 	"verifmc/internal/ev"
+	"verifmc/internal/nohb"
 )
 
 var keys = []string{"a", "b", "c", "d", "e"}
@@ -153,8 +155,20 @@ type witness struct {
 	Detail   string   `json:"detail"`
 }
 
+func repoDir() string {
+	if v := os.Getenv("VERIF_REPO_DIR"); v != "" {
+		return v
+	}
+	return "/repo"
+}
+
 func main() {
+	if nohb.IsWorker() {
+		nohb.WorkerMain(reentrantOps(), repoDir())
+		return
+	}
 	ev.Main("C35", "model_checking", func(c *ev.Ctx) {
+		defer reentrantPhase(c)
 		var ops []op
 		for k := range keys {
 			ops = append(ops, op{get: true, key: k})
